@@ -37,7 +37,7 @@ type mconn struct {
 	accepted bool
 }
 
-const ruleC11Seq = "sequential phase on a real loopback socket: listener with backlog from {1,2,4,128}, accept filter from {none, first byte != 'X'}, batch reading {off, size 2, size 8}; 1..6 remote sockets (127.0.0.1 with different ports, or other addresses of 127/8 with the port of the first remote); steps send(remote, size 9..8192 or empty, first byte 'X' or not), burst (the read loop is parked inside the accept filter by a gate datagram while 2..6 datagrams, with runs of one remote, are sent back to back, so that they are dispatched from one batch), accept, read, close, close-again (of a connection closed earlier, also after its remote has been given a new one), send-again-after-close; after every send a marker datagram from an always-accepted remote is sent and read back, which (single-threaded FIFO read loop) proves the earlier datagram has been dispatched, so refusals are decidable without sleeping; model: remote -> connection/backlog/queue; oracle: Accept returns the connections in creation order with the right RemoteAddr, every Read returns exactly the next datagram of that remote, byte-identical, nothing on another connection, filtered or overflowing datagrams create nothing (verified at the end: the backlog holds exactly the model's connections), after Close a new datagram creates a fresh connection; non-trivial = >=2 remotes interleaved and at least one of close-then-reconnect, backlog overflow, filter refusal; distinct by hash of config + steps"
+const ruleC11Seq = "sequential phase on a real loopback socket: listener with backlog from {1,2,4,128}, accept filter from {none, first byte != 'X'}, batch reading {off, size 2, size 8}; listener on 127.0.0.1, on the unspecified address of a dual-stack socket, on 0.0.0.0 or on [::1]; 1..6 remote sockets (127.0.0.1 or ::1 with different ports, other addresses of 127/8 with the port of the first remote, on the dual-stack listener also ::1 with the port of the IPv4 remote); steps send(remote, size 9..8192 or empty, first byte 'X' or not), burst (the read loop is parked inside the accept filter by a gate datagram while 2..6 datagrams, with runs of one remote, are sent back to back, so that they are dispatched from one batch), accept, read, close, close-again (of a connection closed earlier, also after its remote has been given a new one), send-again-after-close; after every send a marker datagram from an always-accepted remote is sent and read back, which (single-threaded FIFO read loop) proves the earlier datagram has been dispatched, so refusals are decidable without sleeping; model: remote -> connection/backlog/queue; oracle: Accept returns the connections in creation order with the right RemoteAddr, every Read returns exactly the next datagram of that remote, byte-identical, nothing on another connection, filtered or overflowing datagrams create nothing (verified at the end: the backlog holds exactly the model's connections), after Close a new datagram creates a fresh connection; non-trivial = >=2 remotes interleaved and at least one of close-then-reconnect, backlog overflow, filter refusal; distinct by hash of config + steps"
 
 func TestC11Sequential(t *testing.T) {
 	r := ev.New("C11", "sequential", ruleC11Seq)
@@ -73,11 +73,33 @@ func TestC11Sequential(t *testing.T) {
 		c.Set("filter", filter)
 		c.Set("batch", batch)
 		c.Labelf("batch/%d", batch)
-		ln, err := lc.Listen("udp", &net.UDPAddr{IP: loop, Port: 0})
+		// The listener's address family: 127.0.0.1 ("udp"), the unspecified address on a
+		// dual-stack socket ("udp", where IPv4 senders show up as IPv4-mapped addresses and IPv6
+		// senders may use the very port of an IPv4 one), 0.0.0.0 ("udp4") or [::1] ("udp6").
+		family := rapid.SampledFrom([]string{"loop4", "loop4", "loop4", "dual", "dual", "any4", "loop6"}).Draw(t, "family")
+		var ln net.Listener
+		var err error
+		switch family {
+		case "dual":
+			ln, err = lc.Listen("udp", &net.UDPAddr{})
+		case "any4":
+			ln, err = lc.Listen("udp4", &net.UDPAddr{IP: net.IPv4zero})
+		case "loop6":
+			ln, err = lc.Listen("udp6", &net.UDPAddr{IP: net.IPv6loopback})
+		}
+		if ln == nil || err != nil { // no IPv6 on this machine: the plain loopback listener
+			family = "loop4"
+			ln, err = lc.Listen("udp", &net.UDPAddr{IP: loop, Port: 0})
+		}
 		if err != nil {
 			t.Fatalf("listen: %v", err)
 		}
-		laddr := ln.Addr().(*net.UDPAddr)
+		c.Label("listener/" + family)
+		laddr := &net.UDPAddr{IP: loop, Port: ln.Addr().(*net.UDPAddr).Port}
+		laddr6 := &net.UDPAddr{IP: net.IPv6loopback, Port: laddr.Port}
+		if family == "loop6" {
+			laddr = laddr6
+		}
 		var all []net.Conn
 		defer func() { closeAll(append([]io.Closer{ln}, asClosers(all)...)) }()
 		dial := func() *net.UDPConn {
@@ -124,9 +146,19 @@ func TestC11Sequential(t *testing.T) {
 			if i > 0 && rapid.Bool().Draw(t, "samePort") {
 				port := remotes[0].LocalAddr().(*net.UDPAddr).Port
 				ip := altIPs[(i-1)%len(altIPs)]
-				if r, err := net.DialUDP("udp", &net.UDPAddr{IP: ip, Port: port}, laddr); err == nil {
-					remotes[i] = r
-					c.Label("remote/same-port-other-address")
+				switch {
+				case family == "dual" && i%2 == 1:
+					// an IPv6 remote with the port of the IPv4 remote 0
+					if r, err := net.DialUDP("udp6", &net.UDPAddr{IP: net.IPv6loopback, Port: port}, laddr6); err == nil {
+						remotes[i] = r
+						c.Label("remote/ipv6-with-the-port-of-an-ipv4-remote")
+					}
+				case family == "loop6":
+				default:
+					if r, err := net.DialUDP("udp", &net.UDPAddr{IP: ip, Port: port}, laddr); err == nil {
+						remotes[i] = r
+						c.Label("remote/same-port-other-address")
+					}
 				}
 			}
 			if remotes[i] == nil {
@@ -504,7 +536,6 @@ func TestC11Concurrent(t *testing.T) {
 		}
 	})
 }
-
 
 func asClosers(cs []net.Conn) []io.Closer {
 	r := make([]io.Closer, len(cs))
